@@ -203,6 +203,53 @@ def history_of(lines, lineno):
     return [lines[0]] + lines[start:i + 1]
 
 
+PURE_WRITERS = set("ENew EIdentity EBase ESet ECopy EDecode EUnmarshal EDecodeComp EDecodeUnc EDecodeCoords EDecodeHex EHashToGroup "
+                   "EEncodeToGroup ESetRaw SNew SZero SOne SMinusOne SSetU64 SSet SSetNil SCopy SDecode SUnmarshal SDecodeHex "
+                   "SHashToScalar SRandom SSetInt".split())
+COPIES = {"ESet": "E", "ECopy": "E", "SSet": "S", "SCopy": "S"}
+E_WRITERS = set("ENew EIdentity EBase ESet ECopy EAdd ESub EDouble ENegate EMul EMulNil EDecode EUnmarshal EDecodeComp EDecodeUnc "
+                "EDecodeCoords EDecodeHex EHashToGroup EEncodeToGroup ESetRaw ERescale".split())
+S_WRITERS = set("SNew SZero SOne SMinusOne SSetU64 SSet SSetNil SCopy SAdd SSub SMul SMulNil SSquare SInvert SPow SCSelect SDecode "
+                "SUnmarshal SDecodeHex SHashToScalar SRandom SSetInt".split())
+
+
+def input_provenance(history):
+    """For the LAST event of a history: the set of actions that last wrote each of its operand variables
+    (DESIGN 3.6, latent faults: a value left behind by the property's own action that misbehaves later)."""
+    prov = {}
+    evs = []
+    for ln in history[1:]:
+        try:
+            evs.append(json.loads(ln))
+        except Exception:
+            return set()
+    if not evs:
+        return set()
+    for e in evs[:-1]:
+        op = e.get("op", "")
+        if op in ("Reset", "Adopt"):
+            prov = {}
+            continue
+        if op in COPIES:
+            k = COPIES[op]
+            prov[(k, e.get("r"))] = prov.get((k, e.get("a")), "fresh")
+        elif op in E_WRITERS and "r" in e:
+            if not (op == "EDecode" or op.startswith("EDecode") or op == "EUnmarshal") or e.get("err") == 0:
+                prov[("E", e["r"])] = op
+        elif op in S_WRITERS and "r" in e:
+            prov[("S", e["r"])] = op
+    last = evs[-1]
+    op = last.get("op", "")
+    kind = "E" if op.startswith("E") else "S"
+    ins = set()
+    for f in ("r", "a", "b"):
+        if f in last and not (f == "r" and op in PURE_WRITERS):
+            ins.add(prov.get((kind, last[f]), "fresh"))
+    if "s" in last:
+        ins.add(prov.get(("S", last["s"]), "fresh"))
+    return ins
+
+
 def strip_obs(ev):
     return {k: v for k, v in ev.items() if k != "obs"}
 
@@ -351,7 +398,14 @@ def check_trace_property(prop, tier, seed, work, replay=None, scale=1.0):
             elif prop in OWNERS.get(rec["op"], set()) or prop in CONCURRENT_PROPS:
                 violations.append(rec)
             else:
-                inconclusive.append(rec)
+                # a foreign action disagreed: it is this property's violation only if it was fed a value that
+                # one of this property's own actions left behind (and the same action on other values held)
+                latent = [o for o in input_provenance(rec["history"]) if prop in OWNERS.get(o, set())]
+                if latent and rec["reason"] not in ("frame", "invalid-frame"):
+                    rec["detail"] = "latent: value left by %s misbehaves in %s; %s" % ("/".join(sorted(latent)), rec["op"], rec["detail"])
+                    violations.append(rec)
+                else:
+                    inconclusive.append(rec)
 
     os.makedirs(os.path.join(VERIF, "replays"), exist_ok=True)
     out_lines = []
